@@ -87,7 +87,7 @@ fn any_token() -> Box<[u8]> {
 //@ standins: tracing lru vcoll
 //@ also: C03
 //@ desc: one put_mutable against a store holding nothing or one item for the target (seq0): the stored seq never decreases; cas present and != seq0 => 301; seq < seq0 => 302; invalid signature or target != SHA1(k||salt) => 206; bad token => 203; every error leaves the stored item unchanged; otherwise the put's (seq, value) is stored and acknowledged; equal seq (the same item again) is accepted
-//@ bounds: full i64 seq0/seq/cas; cas absent or present; symbolic 1-byte values; symbolic verdict bits (signature valid, target matches) through the contract of from_dht_message (C02.O1); token = the valid token or an arbitrary 4-byte token; capacity 1; unwind 26
+//@ bounds: full i64 seq0/seq/cas; cas absent or present; symbolic 1-byte values; symbolic verdict bits (signature valid, target matches) through the contract of from_dht_message (C02.O1); token = the valid token or an arbitrary 4-byte token; the request's signature bytes equal to the stored item's or different (replayed signature around another value); capacity 1; unwind 26, memcmp 66
 //@ inv: mutable_values maps a target to some item (trivially inductive; pre-state by direct insertion)
 //@ stubs: MutableItem::from_dht_message -> contract (leaf C02.O1a-e); other arms' validators (from_dht_request, validate_immutable, RoutingTable::closest) -> flagged cuts; Instant::now -> symbolic clock; getrandom::fill -> preloaded symbolic bytes
 //@ functions: Server::handle_request (put_mutable arm), Tokens::{should_update,validate}, LruCache get/put (stand-in)
@@ -120,6 +120,10 @@ fn c04_o1_put_mutable_rules() {
     let val: u8 = kani::any();
     let sig_valid: bool = kani::any();
     let target_ok: bool = kani::any();
+    // the request's signature bytes either repeat the stored item's (a replayed signature, possibly
+    // around another value) or differ from them
+    let replay_sig: bool = kani::any();
+    let sb: u8 = if replay_sig { 2 } else { 5 };
     unsafe {
         mh::CONTRACT_SIG_VALID = sig_valid;
         mh::CONTRACT_TARGET_OK = target_ok;
@@ -129,7 +133,7 @@ fn c04_o1_put_mutable_rules() {
         request_type: RequestTypeSpecific::Put(PutRequest {
             token: Box::new(token),
             put_request_type: PutRequestSpecific::PutMutable(PutMutableRequestArguments {
-                target, v: Box::new([val]), k: [1; 32], seq, sig: [5; 64], salt: None, cas,
+                target, v: Box::new([val]), k: [1; 32], seq, sig: [sb; 64], salt: None, cas,
             }),
         }),
     };
@@ -153,7 +157,7 @@ fn c04_o1_put_mutable_rules() {
     } else {
         assert!(code.is_none() && is_ack(&reply, rt.id()), "C04.O4 valid put acknowledged");
         let it = now.unwrap();
-        assert!(it.seq() == seq && it.value() == &[val] && ends(it.signature(), 5), "C04.O4 accepted item stored");
+        assert!(it.seq() == seq && it.value() == &[val] && ends(it.signature(), sb), "C04.O4 accepted item stored");
     }
     if code.is_some() {
         if has_prev {
@@ -176,6 +180,7 @@ fn c04_o1_put_mutable_rules() {
     kani::cover!(code.is_none() && has_prev && seq == seq0);
     kani::cover!(code.is_none() && has_prev && seq > seq0 && cas == Some(seq0));
     kani::cover!(code.is_none() && !has_prev && cas.is_some());
+    kani::cover!(code == Some(206) && has_prev && replay_sig && seq == seq0 && val != val0);
     std::mem::forget(reply);
     std::mem::forget(server);
     std::mem::forget(rt);
